@@ -41,7 +41,7 @@ var swaps = map[token.Token][]token.Token{
 func main() {
 	file := flag.String("file", "", "")
 	out := flag.String("out", "", "")
-	set := flag.Int("set", 1, "operator set: 1 = operator swaps / literals / statement deletion, 2 = len(x)+-1, copy removal (append([]T{}, x...) -> x), conditions forced true/false")
+	set := flag.Int("set", 1, "operator set (3 = op-assign -> assign, true <-> false, slice bounds dropped, narrowing conversions, range over xs[1:] / xs[:len-1], x[i] -> x[i+-1]): 1 = operator swaps / literals / statement deletion, 2 = len(x)+-1, copy removal (append([]T{}, x...) -> x), conditions forced true/false")
 	flag.Parse()
 	src, err := os.ReadFile(*file)
 	if err != nil {
@@ -92,6 +92,10 @@ func main() {
 		}
 		if *set == 2 {
 			mutateSet2(fd, fn, emit)
+			continue
+		}
+		if *set == 3 {
+			mutateSet3(fd, fn, emit)
 			continue
 		}
 		// statement-level mutations
@@ -265,6 +269,85 @@ func mutateSet2(fd *ast.FuncDecl, fn string, emit func(token.Pos, string, string
 		case *ast.ForStmt:
 			if v.Cond != nil {
 				replaceExpr(func() ast.Expr { return v.Cond }, func(e ast.Expr) { v.Cond = e })
+			}
+		}
+		return true
+	})
+}
+
+// mutateSet3: x op= y -> x = y; true <-> false; s[a:b] -> s[a:] / s[:b], s[a:] -> s, s[a:b:c] -> s[a:b]; uintN(e) -> uintN(uintM(e)) with M < N;
+// range xs -> range xs[1:] / xs[:len(xs)-1]; x[i] -> x[i+1] / x[i-1] for identifier indices.
+func mutateSet3(fd *ast.FuncDecl, fn string, emit func(token.Pos, string, string)) {
+	narrow := map[string]string{"uint16": "uint8", "uint32": "uint16", "uint64": "uint32", "int": "int16", "int64": "int32"}
+	one := &ast.BasicLit{Kind: token.INT, Value: "1"}
+	ast.Inspect(fd.Body, func(n ast.Node) bool {
+		switch v := n.(type) {
+		case *ast.AssignStmt:
+			switch v.Tok {
+			case token.ADD_ASSIGN, token.SUB_ASSIGN, token.OR_ASSIGN, token.AND_ASSIGN, token.SHL_ASSIGN, token.SHR_ASSIGN, token.XOR_ASSIGN:
+				old := v.Tok
+				v.Tok = token.ASSIGN
+				emit(v.Pos(), fn, old.String()+" -> =")
+				v.Tok = old
+			}
+		case *ast.Ident:
+			if v.Name == "true" || v.Name == "false" {
+				old := v.Name
+				if old == "true" {
+					v.Name = "false"
+				} else {
+					v.Name = "true"
+				}
+				emit(v.Pos(), fn, old+" -> "+v.Name)
+				v.Name = old
+			}
+		case *ast.SliceExpr:
+			if v.Slice3 && v.Max != nil {
+				oldm := v.Max
+				v.Max, v.Slice3 = nil, false
+				emit(v.Pos(), fn, "s[a:b:c] -> s[a:b]")
+				v.Max, v.Slice3 = oldm, true
+				return true
+			}
+			if v.High != nil {
+				old := v.High
+				v.High = nil
+				emit(v.Pos(), fn, "slice upper bound dropped")
+				v.High = old
+			}
+			if v.Low != nil {
+				old := v.Low
+				v.Low = nil
+				emit(v.Pos(), fn, "slice lower bound dropped")
+				v.Low = old
+			}
+		case *ast.CallExpr:
+			if id, ok := v.Fun.(*ast.Ident); ok && len(v.Args) == 1 {
+				if m, ok := narrow[id.Name]; ok {
+					if _, lit := v.Args[0].(*ast.BasicLit); !lit {
+						old := v.Args[0]
+						v.Args[0] = &ast.CallExpr{Fun: ast.NewIdent(m), Args: []ast.Expr{old}}
+						emit(v.Pos(), fn, id.Name+"(e) -> "+id.Name+"("+m+"(e))")
+						v.Args[0] = old
+					}
+				}
+			}
+		case *ast.RangeStmt:
+			old := v.X
+			if _, isCall := old.(*ast.CallExpr); !isCall {
+				v.X = &ast.SliceExpr{X: old, Low: one}
+				emit(v.Pos(), fn, "range xs -> range xs[1:]")
+				v.X = &ast.SliceExpr{X: old, High: &ast.BinaryExpr{X: &ast.CallExpr{Fun: ast.NewIdent("len"), Args: []ast.Expr{old}}, Op: token.SUB, Y: one}}
+				emit(v.Pos(), fn, "range xs -> range xs[:len(xs)-1]")
+				v.X = old
+			}
+		case *ast.IndexExpr:
+			if id, ok := v.Index.(*ast.Ident); ok {
+				for _, op := range []token.Token{token.ADD, token.SUB} {
+					v.Index = &ast.BinaryExpr{X: id, Op: op, Y: one}
+					emit(v.Pos(), fn, "x[i] -> x[i"+op.String()+"1]")
+				}
+				v.Index = id
 			}
 		}
 		return true
